@@ -87,6 +87,9 @@ def oracle(c, o):
         # handed to the solver is re-assembled independently (only supported numbers become trivial equations)
         from .. import oracles as O
         fails = ["the system handed to the solver is not that of the sliced structure: " + f for f in O.c17_structure(o, o["Pre"][-1])[:2]]
+        # ... whose equation numbers must stand for the unknowns the definition declares (a bar end shares a node's number
+        # exactly for the components its link holds)
+        fails = fails or ["the system handed to the solver is not that of the declared structure: " + f for f in O.c16_structure(o, o["Pre"][-1])[:2]]
     return fails
 
 
@@ -116,8 +119,33 @@ SPEC = {
 }
 
 
+def big_structures(ctx):
+    """hundreds of bars: assembled, solved and judged inside the harness process against an independent superposition of the
+    slice matrices (every free equation within the requested error, supported unknowns exactly zero)"""
+    from .. import common as C
+    from .. import gen_struct as G
+    sizes = [515, 64] if ctx.tier == "quick" else [515, 520, 1029, 64]
+    err = 1e-4
+    cases = [{"Text": G.posts_text(n), "Weight": False, "Solve": True, "Error": "1e-4"} for n in sizes]
+    outs = C.dump("bigcheck", cases, timeout=1800)
+    for n, o in zip(sizes, outs):
+        what = "%d clamped posts (%s equations)" % (n, o.get("Equations"))
+        how = {"how": "tools.gen_struct.posts_text(%d) + harness/bin/dump bigcheck, --error 1e-4" % n, "first": o.get("First")}
+        if o.get("Panic"):
+            ctx.violation("%s: %s" % (what, o["Panic"][:200]), how)
+        elif o.get("KMismatch") or o.get("FMismatch"):
+            ctx.violation("%s: the system handed to the solver is not that of the sliced structure (%d stiffness terms, %d load entries differ): %s" % (
+                what, o["KMismatch"], o["FMismatch"], "; ".join(o.get("First") or [])), how)
+        elif o.get("Solved") and (float(o["MaxResid"]) > err * (1 + 1e-6) + 1e-9 or float(o["MaxSupport"]) != 0):
+            ctx.violation("%s: solve succeeded with a residual of %s against the sliced structure's own equations (requested %g), supported unknowns move by %s" % (
+                what, o["MaxResid"], err, o["MaxSupport"]), how)
+    ctx.log("%d structures of hundreds of bars assembled, solved and judged inside the harness" % len(cases))
+    return len(cases)
+
+
 def run(ctx):
     core.run(ctx, SPEC)
+    ctx.coverage["large_structures"] = big_structures(ctx)
     # command-line level: a failing solve leaves no solution file, a successful one does
     from .. import cli
     cli.c05_cli(ctx)
